@@ -164,6 +164,8 @@ def run(ctx):
     borrow(ctx)
     enum_presentation_rule(ctx, dm)
     decimal_from_f64_rule(ctx)
+    decimal_exact_parse_rule(ctx)
+    decimal_integer_hints_rule(ctx, dm)
     from .c03 import newtype_rule
     newtype_rule(ctx)
 
@@ -186,10 +188,63 @@ def decimal_from_f64_rule(ctx):
     helpers = [x for x in f.body_list if x.id.startswith('ser::serializer::') and any(cname(t) == x.id or (t.get('resolved') or '') == x.id for y in fam for bb, t in y.calls())]
     inexact = [fn_label(x) for x in fam + helpers for bb, t in x.calls() if not x.is_cleanup(bb) and (t.get('callee') or '').endswith(('FromPrimitive::from_f64', 'Decimal::from_f64_retain', 'TryFrom::try_from')) and
                ('f64' in ' '.join(t.get('arg_tys', [])) )]
-    parsed = any((t.get('callee') or '').endswith(('str::<impl str>::parse', 'FromStr::from_str')) and 'Decimal' in ' '.join(t.get('substs', []) + [x.local_ty((t.get('dest') or {}).get('l', 0)) or ''])
+    parsed = any((t.get('callee') or '').endswith(('str::<impl str>::parse', 'FromStr::from_str', 'Decimal::from_str_exact')) and 'Decimal' in ' '.join(t.get('substs', []) + [x.local_ty((t.get('dest') or {}).get('l', 0)) or '', t.get('callee') or ''])
                  for x in fam + helpers for bb, t in x.calls() if not x.is_cleanup(bb))
     ctx.ob('DECF64', 'shortest-representation', not inexact and parsed, short_loc(b.span),
            'f64 -> decimal through a binary expansion (from_f64 / try_from): %s; through the printed shortest representation (parse): %s' % (sorted(set(inexact)) or 'no', parsed))
+
+
+def decimal_integer_hints_rule(ctx, dm=None):
+    """the union lookup sends integers of every width to decimal branches (Integer4, Integer8, Integer keys), so every integer
+    hint must read a decimal back as an integer: the Decimal / BigDecimal cell of each deserialize_<int> reaches the decimal
+    reader through an integer-hinted method, not through deserialize_any (which presents a decimal as text)"""
+    f = ctx.f
+    dm = dm if dm is not None else de_matrix(f)
+
+    def ends_in_any(name, kind, depth=0):
+        if name == 'deserialize_any':
+            return True
+        if name not in dm or depth > 3:
+            return True          # no match on the node at all: everything goes to deserialize_any
+        b, cells = dm[name]
+        for variants, r, toks in cells:
+            if kind in variants:
+                fw = [t[0][1] for t in toks if t[0][0] == 'FWD']
+                if any(t[0][0] == 'DECIMAL' for t in toks):
+                    return False
+                if len(fw) == 1:
+                    return ends_in_any(fw[0], kind, depth + 1)
+                return True
+        return True
+    bad = []
+    for hint in ('i8', 'i16', 'i32', 'i64', 'u8', 'u16', 'u32', 'u64'):
+        for kind in ('Decimal', 'BigDecimal'):
+            if ends_in_any('deserialize_' + hint, kind):
+                bad.append('%s/%s' % (hint, kind))
+    ctx.ob('WIREPAIR', 'decimal-integer-hints', not bad, None,
+           'integer hints under which a decimal is presented as text instead of an integer: %s' % (bad or 'none'))
+
+
+def decimal_exact_parse_rule(ctx):
+    """text presented for a decimal is parsed exactly or refused: `str::parse::<Decimal>()` (FromStr) silently ROUNDS what has
+    more than 28 fractional digits ("0.00000000000000000000000000001" becomes 0), before any check of the scale can see
+    it; `Decimal::from_str_exact` errors instead"""
+    f = ctx.f
+    rounding, exact = [], 0
+    for x in f.body_list:
+        if not x.id.startswith(('ser::', '<ser::')):
+            continue
+        for bb, t in x.calls():
+            if x.is_cleanup(bb):
+                continue
+            c = t.get('callee') or ''
+            tys = ' '.join(t.get('substs', []) + [x.local_ty((t.get('dest') or {}).get('l', 0)) or ''])
+            if c.endswith(('str::<impl str>::parse', 'FromStr::from_str')) and 'rust_decimal' in tys:
+                rounding.append('%s at %s' % (short_fn(fn_label(x)), short_loc(t.get('span'))))
+            if c.endswith('Decimal::from_str_exact'):
+                exact += 1
+    ctx.ob('DECSTR', 'parsed-exactly', not rounding and exact >= 1, None,
+           'decimal text parsed with the rounding FromStr: %s; with from_str_exact: %d site(s)' % (rounding or 'nowhere', exact))
 
 
 def enum_presentation_rule(ctx, dm=None):
@@ -328,6 +383,19 @@ def name_pair(ctx):
         ins = [c for c in cs if c.endswith('HashMap::<K, V, S, A>::insert') or c.endswith('::insert')]
         ok = any(c.endswith('Name::name') for c in cs) and any(c.endswith('Name::fully_qualified_name') for c in cs) and len(ins) >= 2
     ctx.ob('NAMEPAIR', 'register_name/short-and-full', ok, short_loc(nb.span), 'register_name inserts both name() and fully_qualified_name(): %s' % ok)
+    # the names of named types and the built-in type names ("Duration", "Decimal", "String" ...) share one table: a record
+    # that is itself called Duration next to a duration logical type must stay reachable under its name - built-in type
+    # names are only added where the name is still free (entry().or_insert), names of named types always win (insert)
+    tn = None
+    for cb in f.closures_of(nb):
+        tys = ' '.join((cb.local_ty(i) or '') for i in range(1, cb.nargs + 1))
+        if "&'static str" in tys or '&str' in tys:
+            cs = [strip_generics(cname(t)) for bb, t in cb.calls() if not cb.is_cleanup(bb)]
+            if any(c.endswith(('HashMap::insert', 'HashMap::entry')) for c in cs):
+                tn = (cb, cs)
+    ok_tn = tn is not None and not any(c.endswith('HashMap::insert') for c in tn[1]) and any(c.endswith(('Entry::or_insert', 'Entry::or_insert_with', 'VacantEntry::insert')) for c in tn[1])
+    ctx.ob('NAMEPAIR', 'type-names-never-shadow-named-types', ok_tn, short_loc(nb.span),
+           'built-in type names are registered only where the name is free (entry().or_insert, never a plain insert): %s' % ok_tn)
 
 
 # (kind, key) registered without a serializer capability: reviewed, one reason each
